@@ -612,7 +612,7 @@ def run(ctx: C.Ctx) -> None:
         case = {"flow": "image", "enc": "Identity-H", "usecmap": None, "registry": "Adobe", "ordering": "Identity",
                 "basefont": "Helv", "images": [nm, nm], "pre": ["Im0.bmp", "keep.bmp"], "output_type": "text"}
         check_case(ctx, case, lines, impl, inputs)
-    for i in range(ctx.n(250, 6000)):
+    for i in range(ctx.n(1200, 20000)):
         if not ctx.time_left():
             break
         check_case(ctx, gen_case(rng), lines, impl, inputs)
